@@ -204,7 +204,11 @@ func (e *execState) checkHooksBlock(bo *blockObs, br BlockResult, fx BlockEffect
 		case OAddAllowed:
 			var sb strings.Builder
 			for _, en := range po.Op.Entries {
-				fmt.Fprintf(&sb, "(%d,%s,%s)", po.Op.AuctionID, e.addrOf(en.Who), en.Max)
+				who := e.addrOf(en.Who)
+				if en.Who == -2 {
+					who = en.RawAddr
+				}
+				fmt.Fprintf(&sb, "(%d,%s,%s)", po.Op.AuctionID, who, en.Max)
 			}
 			e.verifyOp(bo, what, -1, calls, []expHook{{"BeforeAllowedBiddersAdded", sb.String(), ""}})
 		case OUpdateAllowed:
